@@ -56,7 +56,8 @@ Tot(f) == SumOver(f, DOMAIN f)
 
 (***************************************************************************)
 (* State                                                                   *)
-(*   inv[h]  = [amt, ks, old]  approved invoice (amt = 0: none), keysend?,  *)
+(*   inv[h]  = [amt, ks, old]  approved invoice (amt = -1: none; amt = 0: an *)
+(*             amountless invoice / a keysend registered with 0), keysend?,   *)
 (*             past its prune time?                                         *)
 (*   pay[h]  = [has, in, out, pre]  RoutedPayment: entry exists, incoming /  *)
 (*             outgoing per channel, preimage known                         *)
@@ -71,7 +72,7 @@ Tot(f) == SumOver(f, DOMAIN f)
 (*   ch[c]   = [curH, nextH, curC]  accepted commitment contents            *)
 (*   time    = 0, or 1 after the clock was advanced past every prune time   *)
 (***************************************************************************)
-NoInv == [amt |-> 0, ks |-> FALSE, old |-> FALSE]
+NoInv == [amt |-> -1, ks |-> FALSE, old |-> FALSE]
 NoIss == [amt |-> 0, old |-> FALSE]
 Zero(Cs) == [c \in Cs |-> 0]
 NoPay(Cs) == [has |-> FALSE, in |-> Zero(Cs), out |-> Zero(Cs), pre |-> FALSE]
@@ -108,11 +109,15 @@ InSum(cs, nH, nC, Hs) ==
      IF ~(both \/ VKey(cs.curH, "r", h) \/ VKey(cs.curC, "r", h)) THEN -1
      ELSE IF both THEN Min(VAmt(hv, "r", h), VAmt(cv, "r", h)) ELSE 0]
 
-\* SimpleValidator::validate_payment_balance (amounts in units; inv = 0: no invoice)
+\* SimpleValidator::validate_payment_balance (amounts in units; inv = -1: no invoice).  An approval
+\* of amount 0 (amountless invoice) is Some(0) in the code: no allowance beyond the routing fee, and
+\* the fee percentage is taken over max(invoiced msat, 1), so ANY excess over the incoming value
+\* exceeds every percentage: such an approval covers outgoing value up to the incoming value only.
 BalanceErr(in, out, inv, k) ==
-  \/ in + (IF inv > 0 THEN inv + k.fee ELSE 0) < out               \* policy-routing-balanced
-  \/ /\ inv > 0 /\ ~(inv + in > out)
-     /\ ((out - inv - in) * 100) \div inv > k.pct                  \* policy-htlc-fee-range
+  \/ in + (IF inv >= 0 THEN inv + k.fee ELSE 0) < out              \* policy-routing-balanced
+  \/ /\ inv >= 0 /\ ~(inv + in > out)
+     /\ IF inv = 0 THEN out - in > 0
+        ELSE ((out - inv - in) * 100) \div inv > k.pct              \* policy-htlc-fee-range
 
 \* NodeState::validate_payments: the hashes reported as unbalanced
 Unbalanced(s, c, inS, outS, k) ==
@@ -125,7 +130,7 @@ Unbalanced(s, c, inS, outS, k) ==
             out == IF p.has THEN Tot(p.out) + oc - p.out[c] ELSE oc IN
         /\ BalanceErr(in, out, s.inv[h].amt, k)
         \* TODO(331): an existing payment without invoice may go out of balance (warning only)
-        /\ ~(p.has /\ s.inv[h].amt = 0)}
+        /\ ~(p.has /\ s.inv[h].amt < 0)}
 
 \* NodeState::apply_payments: every key of either summary gets this channel's values
 Apply(pay, c, inS, outS) ==
@@ -185,14 +190,14 @@ Persist(s) == [s EXCEPT !.ppre = [h \in Hs(s) |-> s.pay[h].pre], !.piss = s.iss]
 \* registered before the clock was advanced is a different one afterwards.
 AddInvoice(s, h, a) ==
   LET e == s.inv[h] IN
-  IF e.amt > 0 THEN (IF ~e.ks /\ e.amt = a /\ ~e.old THEN OkFlag(s, TRUE) ELSE Err(s))
+  IF e.amt >= 0 THEN (IF ~e.ks /\ e.amt = a /\ ~e.old THEN OkFlag(s, TRUE) ELSE Err(s))
   ELSE OkFlag(Persist([s EXCEPT !.inv[h] = [amt |-> a, ks |-> FALSE, old |-> FALSE],
                                 !.pay[h] = IF @.has THEN @ ELSE Fresh(Cs(s))]), TRUE)
 \* an invoice the approver declines (Approve::handle_proposed_invoice): the shortcut for an already
 \* registered identical invoice still answers true; nothing is registered otherwise
 DeclineInvoice(s, h, a) ==
   LET e == s.inv[h] IN
-  IF e.amt > 0 THEN (IF ~e.ks /\ e.amt = a /\ ~e.old THEN OkFlag(s, TRUE) ELSE Err(s))
+  IF e.amt >= 0 THEN (IF ~e.ks /\ e.amt = a /\ ~e.old THEN OkFlag(s, TRUE) ELSE Err(s))
   ELSE OkFlag(s, FALSE)
 \* sign_bolt11_invoice: the node signs an invoice of its own (amount a > 0) and remembers it in
 \* issued_invoices; the identical invoice is signed again, a different one for the same hash is
@@ -205,7 +210,7 @@ IssueInvoice(s, h, a) ==
 \* hash that has one is the same one (the registered amount stays)
 AddKeysend(s, h, a) ==
   LET e == s.inv[h] IN
-  IF e.amt > 0 THEN (IF e.ks THEN OkFlag(s, TRUE) ELSE Err(s))
+  IF e.amt >= 0 THEN (IF e.ks THEN OkFlag(s, TRUE) ELSE Err(s))
   ELSE OkFlag(Persist([s EXCEPT !.inv[h] = [amt |-> a, ks |-> TRUE, old |-> FALSE],
                                 !.pay[h] = IF @.has THEN @ ELSE Fresh(Cs(s))]), TRUE)
 
@@ -215,19 +220,19 @@ Fulfill(s, h) ==
 
 \* the harness sets the clock to a fixed instant past every prune time
 Tick(s) ==
-  LET age(f) == [h \in Hs(s) |-> IF s.time = 0 /\ f[h].amt > 0 THEN [f[h] EXCEPT !.old = TRUE] ELSE f[h]] IN
-  Ok([s EXCEPT !.time = 1, !.inv = age(s.inv), !.iss = age(s.iss), !.piss = age(s.piss)])
+  LET age(f, none) == [h \in Hs(s) |-> IF s.time = 0 /\ f[h].amt # none THEN [f[h] EXCEPT !.old = TRUE] ELSE f[h]] IN
+  Ok([s EXCEPT !.time = 1, !.inv = age(s.inv, -1), !.iss = age(s.iss, 0), !.piss = age(s.piss, 0)])
 
 \* get_heartbeat: prune_invoices, prune_issued_invoices (by time only), prune_forwarded_payments
 \* (an entry is kept while an issued invoice for its hash exists), persist when something was pruned
 Heartbeat(s) ==
-  LET P1 == {h \in Hs(s) : s.inv[h].amt > 0 /\ s.inv[h].old
+  LET P1 == {h \in Hs(s) : s.inv[h].amt >= 0 /\ s.inv[h].old
                             /\ (s.pay[h].pre \/ Tot(s.pay[h].out) = 0)}
       inv1 == [h \in Hs(s) |-> IF h \in P1 THEN NoInv ELSE s.inv[h]]
       pay1 == [h \in Hs(s) |-> IF h \in P1 THEN NoPay(Cs(s)) ELSE s.pay[h]]
       PI == {h \in Hs(s) : s.iss[h].amt > 0 /\ s.iss[h].old}
       iss1 == [h \in Hs(s) |-> IF h \in PI THEN NoIss ELSE s.iss[h]]
-      P2 == {h \in Hs(s) : inv1[h].amt = 0 /\ iss1[h].amt = 0 /\ pay1[h].has
+      P2 == {h \in Hs(s) : inv1[h].amt < 0 /\ iss1[h].amt = 0 /\ pay1[h].has
                             /\ Tot(pay1[h].in) = 0 /\ Tot(pay1[h].out) = 0}
       pay2 == [h \in Hs(s) |-> IF h \in P2 THEN NoPay(Cs(s)) ELSE pay1[h]]
       s2 == [s EXCEPT !.inv = inv1, !.iss = iss1, !.pay = pay2] IN
@@ -244,7 +249,7 @@ RestoreChans(pay, s, S) ==
        RestoreChans(Apply(pay, c, InSum(s.ch[c], NoneC, NoneC, Hs(s)),
                           OutSum(s.ch[c], NoneC, NoneC, Hs(s))), s, S \ {c})
 Restart(s) ==
-  LET pay0 == [h \in Hs(s) |-> IF s.inv[h].amt > 0 THEN Fresh(Cs(s))
+  LET pay0 == [h \in Hs(s) |-> IF s.inv[h].amt >= 0 THEN Fresh(Cs(s))
                                ELSE IF s.ppre[h] THEN [Fresh(Cs(s)) EXCEPT !.pre = TRUE]
                                ELSE NoPay(Cs(s))] IN
   Ok([s EXCEPT !.pay = RestoreChans(pay0, s, Cs(s)), !.iss = s.piss])
@@ -270,7 +275,8 @@ Step(s, r, k) ==
 (* updates per channel (H current holder, X validated and pending, C        *)
 (* current counterparty), the approved amount per hash (the amount of the   *)
 (* accepted registration request, for as long as the signer reports the     *)
-(* approval as registered), the hashes seen in accepted updates.            *)
+(* approval as registered; -1 = none, 0 = an amountless invoice / a keysend *)
+(* of 0, which approves nothing), the hashes seen in accepted updates.      *)
 (*   taint[h]: the approval was registered while the hash was already out   *)
 (*   of balance as an uninvoiced payment (TODO(331) tolerance, which the    *)
 (*   property excludes): clause (a) is not evaluated for it.                *)
@@ -278,7 +284,7 @@ Step(s, r, k) ==
 (***************************************************************************)
 InitGhost(ChanSet, HashSet) ==
   [ H |-> [c \in ChanSet |-> <<>>], X |-> [c \in ChanSet |-> NoneC], C |-> [c \in ChanSet |-> <<>>],
-    appr |-> [h \in HashSet |-> 0], taint |-> [h \in HashSet |-> FALSE],
+    appr |-> [h \in HashSet |-> -1], taint |-> [h \in HashSet |-> FALSE],
     seen |-> [h \in HashSet |-> FALSE], bad |-> FALSE ]
 
 \* value in flight from the node / to the node for hash h, all channels, current commitments
@@ -290,17 +296,17 @@ Ghost(g, r, resp, pre, post, mon) ==
   LET a == mon \in {"a", "ab"}
       b == mon \in {"b", "ab"}
       newAppr == [h \in DOMAIN g.appr |->
-                    IF post.inv[h].amt = 0 THEN 0
-                    ELSE IF pre.inv[h].amt = 0 /\ r.op \in {"AddInvoice", "AddKeysend"} /\ r.h = h
+                    IF post.inv[h].amt < 0 THEN -1
+                    ELSE IF pre.inv[h].amt < 0 /\ r.op \in {"AddInvoice", "AddKeysend"} /\ r.h = h
                               /\ resp.ok /\ resp.flag = 1 THEN r.a
                     ELSE g.appr[h]]
       g1 == [g EXCEPT !.appr = newAppr,
                       !.taint = [h \in DOMAIN g.taint |->
-                                   IF newAppr[h] = 0 THEN FALSE
-                                   ELSE IF g.appr[h] = 0 THEN a /\ GOut(g, h) > GIn(g, h)
+                                   IF newAppr[h] < 0 THEN FALSE
+                                   ELSE IF g.appr[h] < 0 THEN a /\ GOut(g, h) > GIn(g, h)
                                    ELSE g.taint[h]]]
       unbacked(x) == \E h \in DOMAIN g.appr :
-                        /\ g.appr[h] = 0 /\ ~g.seen[h]
+                        /\ g.appr[h] <= 0 /\ ~g.seen[h]      \* no approval, or an approval of amount 0
                         /\ Amt(x, "o", h) > Amt(x, "r", h)
       sees(x) == [h \in DOMAIN g.seen |-> g.seen[h] \/ (b /\ h \in HashesOf(x))]
   IN
@@ -326,9 +332,9 @@ Ghost(g, r, resp, pre, post, mon) ==
 (*     same update carries for that hash                                    *)
 (***************************************************************************)
 Inv_C06a(g, k) == \A h \in DOMAIN g.appr :
-                    (g.appr[h] > 0 /\ ~g.taint[h]) => GOut(g, h) <= GIn(g, h) + g.appr[h] + k.fee
+                    (g.appr[h] >= 0 /\ ~g.taint[h]) => GOut(g, h) <= GIn(g, h) + g.appr[h] + k.fee
 Inv_C06b(g)    == ~g.bad
-Overpaid(g, k) == {h \in DOMAIN g.appr : g.appr[h] > 0 /\ ~g.taint[h]
+Overpaid(g, k) == {h \in DOMAIN g.appr : g.appr[h] >= 0 /\ ~g.taint[h]
                                            /\ GOut(g, h) > GIn(g, h) + g.appr[h] + k.fee}
 
 (***************************************************************************)
@@ -351,6 +357,7 @@ Config(name) ==
           reqs |-> ChanReqs("c1", {<<>>, <<O("h1", 1)>>, <<O("h1", 2)>>, <<O("h1", 1), O("h1", 1)>>}, FALSE)
               \cup ChanReqs("c2", {<<>>, <<O("h1", 1)>>, <<O("h1", 2)>>}, FALSE)
               \cup {[op |-> "AddInvoice", h |-> "h1", a |-> 1], [op |-> "DeclineInvoice", h |-> "h1", a |-> 1],
+                    [op |-> "AddInvoice", h |-> "h1", a |-> 0], [op |-> "AddKeysend", h |-> "h1", a |-> 0],
                     [op |-> "Fulfill", h |-> "h1"], [op |-> "Heartbeat"], [op |-> "Restart"]}]
     [] name = "parts" ->      \* multi-part payments, two invoice amounts, keysend, retries, pruning
          [chans |-> {"c1", "c2"}, hashes |-> {"h1"},
